@@ -35,8 +35,10 @@ func DoRSAencrypt(block []byte, key *rsa.PublicKey) []byte {
 
 	c := big.NewInt(0).Exp(z, exponent, key.N)
 
+	// the ciphertext is the 256-byte big-endian number c; c.Bytes() drops leading zero bytes
 	res := make([]byte, 256)
-	copy(res, c.Bytes())
+	cb := c.Bytes()
+	copy(res[len(res)-len(cb):], cb)
 
 	return res
 }
